@@ -134,6 +134,9 @@ def gen_C18(g, tier):
         cs.append(Case('o.c18.stream 4 %s' % hexes(us), 'orc', 'rejection-run', check=stream_ok))
         cs.append(Case('bm.two ABAB %s' % hexes(us), 'cmp', 'rejection-run'))
         cs.append(Case('bm.two AABB %s' % hexes(us), 'cmp', 'rejection-run'))
+    # very long rejection runs (the generator must keep drawing for as long as the source rejects)
+    for nrej in ([1000, 65536, 65537, 1000001] if tier == 'quick' else [1000, 65535, 65536, 65537, 999999, 1000000, 1000001, 3000000, 16777217]):
+        cs.append(Case('o.c18.longreject %d %s' % (nrej, hexes([0.3, 0.6])), 'orc', 'rejection-run-very-long', check=zero_flag))
     # finiteness of what is delivered, including the centre of the square
     for _ in range(n // 2):
         us = stream(g, 30)
